@@ -1,7 +1,7 @@
 (* C01 — the store behaves exactly like a map from keys to byte strings.
    This file holds ONLY the property theorems, each closed by [exact] of a lemma of the development. *)
 From Coq Require Import List NArith.
-From STH Require Import Lex Index Store Refine Full2 TransD Codec Statements.
+From STH Require Import Log Lex Index Store IndexStore Refine Full2 TransD Codec Crash2 Statements Iterate Statements5.
 Import ListNotations.
 Open Scope N_scope.
 
@@ -27,6 +27,23 @@ Theorem C01_store_behaves_like_map_any_bits :
     yrun (init bits imx pmx imm) ys = yspec_run imm sempty ys.
 Proof. exact store_refines_map_translate_pf. Qed.
 Print Assumptions C01_store_behaves_like_map_any_bits.
+
+(* Whole-store iteration after ANY history: NewIterator flushes (the oracle argument [order] is the order in which the
+   implementation ranged over its Go map; it must list the dirty buckets), then walks buckets in ascending order and
+   entries in stored order, reading each record.  It yields exactly the bindings of the map, each key once. *)
+Theorem C01_iteration_yields_exactly_the_bindings :
+  forall bits imx pmx imm (U : bytes -> Prop) ops order,
+    bits < 32 -> 0 < imx -> 0 < pmx -> key_universe U ->
+    ops_ok_all U (init bits imx pmx imm) ops ->
+    let s := run_state (init bits imx pmx imm) ops in
+    let m := spec_state imm sempty ops in
+    covers order (inext (sidx s)) ->
+    let s' := fst (step s (OFlush order)) in
+    (forall k v, In (k, v) (iterate s') -> exists ik, mh_digest k = Some ik /\ m ik = Some (k, v)) /\
+    (forall ik k v, m ik = Some (k, v) -> In (k, v) (iterate s')) /\
+    NoDup (map fst (iterate s')).
+Proof. exact iteration_reachable. Qed.
+Print Assumptions C01_iteration_yields_exactly_the_bindings.
 
 (* Non-vacuity: a concrete universe of two keys sharing bucket and three leading bytes, and a concrete history,
    satisfy the hypotheses. *)
